@@ -1208,8 +1208,11 @@ impl SeqParameterSet {
     }
 
     /// From the spec: `PicSizeInMapUnits = PicWidthInMbs * PicHeightInMapUnits`
+    ///
+    /// Saturates at `u32::MAX` for (non-conforming) dimensions whose product exceeds 32 bits.
     pub fn pic_size_in_map_units(&self) -> u32 {
-        self.pic_width_in_mbs() * self.pic_height_in_map_units()
+        self.pic_width_in_mbs()
+            .saturating_mul(self.pic_height_in_map_units())
     }
 }
 
